@@ -318,6 +318,7 @@ class Cmp:
     def go(self, exp, act, echo, path, at):
         act = self.unwrap(act)
         k = exp["k"]
+        at = exp.get("c", at)          # constructor of the type this node belongs to (from Values.tla)
         if not isinstance(act, dict):
             return self.diff("no_value", path, at, exp, act)
         ak = act.get("k")
@@ -509,8 +510,18 @@ class Cmp:
         if missing and len(missing) == len(rest) and len(missing) <= 3:
             # same cardinality: the unmatched elements are each other's counterparts shown wrongly --
             # descend to name the inner difference instead of reporting one missing + one invented
-            for w, h in zip(missing, rest):
-                self.go(w if kw(w) is w else kw(w), h if kh(h) is h else kh(h), None, path + ["{}"], at)
+            import itertools
+            best, best_n = None, None
+            for perm in itertools.permutations(rest):
+                n = 0
+                for w, h in zip(missing, perm):
+                    c = Cmp()
+                    c.go(kw(w), kh(h), None, [], at)
+                    n += len(c.diffs)
+                if best_n is None or n < best_n:
+                    best, best_n = perm, n
+            for w, h in zip(missing, best):
+                self.go(kw(w), kh(h), None, path + ["{}"], at)
             return pairs
         if missing:
             self.diff("missing_elements", path, at, f"{len(want)} elements; not shown: {brief([kw(m) for m in missing[:3]])}",
@@ -688,7 +699,7 @@ def judge_one(rep, case, exp, ev, res, api, kind, base, stats, samples):
         c = Cmp()
         c.go(exp, act, ev, [], "")
         for d in c.diffs:
-            d["at"] = at_of(case, d["path"])
+            d["at"] = d["at"] or ctor_of(case)
         if norm_type(tyname) != norm_type(case["tyname"]):
             c.diffs.append({"class": "type_name", "path": ".", "at": ctor_of(case), "expected": case["tyname"], "actual": tyname})
         verdicts.append(c.diffs)
